@@ -46,8 +46,9 @@ _CMP = {
     ast.GtE: operator.ge,
     ast.In: lambda a, b: _contains(b, a),
     ast.NotIn: lambda a, b: not _contains(b, a),
-    ast.Is: lambda a, b: a is b,
-    ast.IsNot: lambda a, b: a is not b,
+    # members of an enumeration are modelled by their qualified names (strings): identity of such values is equality
+    ast.Is: lambda a, b: a is b or (isinstance(a, str) and isinstance(b, str) and a == b),
+    ast.IsNot: lambda a, b: not (a is b or (isinstance(a, str) and isinstance(b, str) and a == b)),
 }
 
 
@@ -157,7 +158,10 @@ class _LocalFn:
             env[p_] = Folder(dict(self.env), f.repo, f.mod, f.cls, f.hook).fold(defaults[p_])
         ev = Evaluator(env, f.repo, f.mod, f.cls, f.hook)
         ev.depth = f.depth + 1
-        return ev.run(body_without_docstring_(self.node))
+        r = ev.run(body_without_docstring_(self.node))
+        if any(isinstance(n, (ast.Yield, ast.YieldFrom)) for n in ast.walk(self.node)):
+            return list(ev.yielded)  # a local generator, evaluated eagerly
+        return r
 
 
 def _contains(container: Any, item: Any) -> bool:
@@ -896,6 +900,16 @@ class Folder:
                         return sub.fold(ex)
         if name == "ValueRange" or (name or "").endswith(".ValueRange"):
             raise Unfoldable(unparse(e))
+        if self.repo is not None and self.mod is not None and isinstance(e.func, (ast.Name, ast.Attribute)) and (name or "?").split(".")[0] not in self.env:
+            # a function of the repository that no rule-specific hook has claimed: evaluated from its source
+            try:
+                r1 = self.repo.resolve_expr(self.mod, e.func, self.cls)
+            except Exception:
+                r1 = None
+            if isinstance(r1, FuncInfo) and (r1.cls is None or r1.is_static) and not (isinstance(e.func, ast.Attribute) and isinstance(e.func.value, ast.Name) and e.func.value.id in ("self", "cls") and r1.cls is None):
+                from .absint import FnRef
+
+                return FnRef(self.repo, r1, self.hook)(*[self.fold(a) for a in args], **{k.arg: self.fold(k.value) for k in e.keywords if k.arg})
         if isinstance(e.func, (ast.Call, ast.Subscript, ast.IfExp)):
             # the callee is itself computed: getattr(x, name)(...), table[key](...), (f if c else g)(...)
             fv = self.fold(e.func)
